@@ -21,7 +21,7 @@ var solvers = []solverSpec{
 	{"z3-new-5.1.0", func(f string, t int) []string { return []string{"z3-new", fmt.Sprintf("-T:%d", t), f} }},
 	{"z3-4.8.12", func(f string, t int) []string { return []string{"z3", fmt.Sprintf("-T:%d", t), f} }},
 	{"cvc5-1.0", func(f string, t int) []string {
-		return []string{"cvc5", fmt.Sprintf("--tlimit=%d", t*1000), "--produce-models", f}
+		return []string{"cvc5", fmt.Sprintf("--tlimit=%d", t*1000), "--produce-models", "--strings-exp", f}
 	}},
 }
 
